@@ -922,6 +922,11 @@ func (in *Interp) sprintfStr(fr *frame, f string, args Slice) Value {
 }
 
 func (in *Interp) sprintf(fr *frame, format Value, args Slice) Value {
+	if _, ok := format.(string); !ok {
+		// a format string that itself contains formatted symbolic values (error messages
+		// built in two steps): an opaque text
+		return &SymStr{tag: "sprintf", args: []Value{format}}
+	}
 	return in.sprintfStr(fr, mustStr(fr, format, "Sprintf format"), args)
 }
 
